@@ -390,3 +390,12 @@ def r13(rr, repo):
         else:
             ok = any(isinstance(n, ast.Assign) and U(n.targets[0]) == arg and f"{za.s_env}.get('eph'" in U(n.value).replace('"', "'") for n in walk_scope(za.S_poll))
             rr.ob("an ordinary request files the client with the ephemeral mark of that request", ok, za.mod, c, witness=f'ephemeral := {arg}', key='request-sets-ephemeral')
+
+
+@rule('C05.R14', "a listener's subscription is not rewritten by what it receives: the per-id set of an explicit-topic source is a fresh object, never the subscription template itself - edits of the set "
+                 "(a frame stored, a topic the publisher did not send removed) would otherwise stay for good: a subscribed topic vanishes from every later set and a stale frame is handed out again "
+                 "(shares C01.R8 and C01.R11)")
+def r14(rr, repo):
+    from .c01 import r8 as c01r8, r11 as c01r11
+    c01r8(rr, repo)
+    c01r11(rr, repo)
